@@ -16,6 +16,18 @@ def tripled (a w : Rat) (periodicAxis : Bool) : Rat × Rat :=
 /-- exact value of `1 + (x - (A - pad·W)) / (span·W)` -/
 def rescaleExact (pad span : Rat) (A W x : Rat) : Rat := 1 + (x - (A - pad * W)) * (1 / (span * W))
 
+/-- exact value of `1 + (x - (A - pad·W)) / (span·G)`: anchor from the box width `W`, scale from the grid width `G`
+(after the repair `29187d1`: `G` = largest active extent, `G ≥ W`) -/
+def rescaleExactG (pad span : Rat) (A W G x : Rat) : Rat := 1 + (x - (A - pad * W)) * (1 / (span * G))
+
+/-- the grid width of an axis: with a shared scale every active axis uses the largest active (tripled) extent,
+inactive (normalised) axes keep their own; without, every axis uses its own extent.
+`w` = per-axis widths after tripling, `axis` ∈ {0,1,2}, `dim` = number of active axes -/
+def gridWidth (shared : Bool) (dim : Nat) (w0 w1 w2 : Rat) (axis : Nat) : Rat :=
+  let own := if axis == 0 then w0 else if axis == 1 then w1 else w2
+  if !shared || axis ≥ dim then own
+  else if dim == 1 then w0 else if dim == 2 then max w0 w1 else max (max w0 w1) w2
+
 /-- the same with a rounding after every operation (`anchor'` and `iw` are the stored, already rounded fields) -/
 def rescaleWith (rnd : Rat → Rat) (anchor' iw x : Rat) : Rat := rnd (1 + rnd (rnd (x - anchor') * iw))
 
